@@ -5,7 +5,7 @@ CONSTANTS
   CapUnlocks = 16
   MaxTxs = 16
   Debug = TRUE
-  Bind = {"faults", "head", "prepare", "process"}
+  Bind = {"faults", "head", "prepare", "process", "finalize"}
 INIT TInit
 NEXT TNext
 INVARIANTS HandedOnce
